@@ -75,6 +75,12 @@ reg("C05",
     "Reference = parse of the same text as one str at the default chunk size. Known findings: chunk-dependent position/order of stream-level invalid-codepoint errors; BOM sniffing trusts read(4). Five input-stream defects found here were repaired in /repo.",
     "DESIGN.md §3 C05")
 
+reg("C11",
+    "round-trip + differential property-based testing of the tree walkers: own stream validator, html5lib's Lint filter, own rebuild(stream) == direct traversal, etree-stream == dom-stream, over trees parsed from generated markup soup and several start nodes",
+    "Exploration: trees from soup (documents, fragments in 45 contexts, namespacing on/off) are walked by both walkers from the document, fragment, root element and an inner element; the stream must be well formed, accepted by Lint, rebuild to exactly the tree obtained by direct traversal, and be the same for both walkers after concatenating character tokens. Held on everything explored.",
+    "Doctype name None == '' (cannot be told apart). Known finding: a void-listed element with children (event-source).",
+    "DESIGN.md §3 C11")
+
 NOT_APPLICABLE = {}
 
 
